@@ -338,11 +338,53 @@ func runC03(r *core.Run) {
 			r.Violation("cli-"+panicKey(st), fmt.Sprintf("pp exit=%d stderr=%s", res.Exit, core.Trunc(st, 1500)), "cli", &c03Case{Input: c.Input, Opts: strings.Join(args, " ")})
 		}
 	})
+	c03FS(r)
 	c03ProgTraces(r)
 	c03RealCrashes(r)
 	c03Special(r)
 	c03Linear(r)
 	nativeFuzzResult(r)
+}
+
+// c03FS: path guessing and source analysis against generated file-system layouts (Go root, GOPATHs, module
+// caches, modules, files present and absent, decoys, shadow files) whose dumps also name paths made of a detected
+// root plus a short remainder: the whole pipeline runs on each, under recover.
+func c03FS(r *core.Run) {
+	n := r.N(800, 12000)
+	core.Parallel(n, workers(), func(i int) { c03FSEval(r, r.Seed, i) })
+}
+
+func c03FSEval(r *core.Run, seed int64, i int) {
+	{
+		dir := fsDir("c03", i)
+		defer os.RemoveAll(dir)
+		rr := core.NewRand(seed, 33, uint64(i))
+		l := gen.GenFS(rr, dir, &gen.FSCfg{Decoys: true, MissingSome: i%2 == 0, Nested: i%3 == 0, Hostile: true})
+		in := l.DumpFor(rr).Render()
+		opts := &stack.Opts{LocalGOROOT: l.LocalGOROOT, LocalGOPATHs: l.LocalGOPATHs, GuessPaths: true, AnalyzeSources: true, NameArguments: true}
+		var st string
+		func() {
+			defer func() {
+				if p := recover(); p != nil {
+					st = fmt.Sprintf("%v\n%s", p, debug.Stack())
+				}
+			}()
+			s, _, _ := stack.ScanSnapshot(bytes.NewReader(in), io.Discard, opts)
+			if s != nil {
+				for _, lvl := range []stack.Similarity{stack.ExactFlags, stack.AnyPointer, stack.AnyValue} {
+					a := s.Aggregate(lvl)
+					if i%16 == 0 {
+						_ = a.ToHTML(io.Discard, "")
+					}
+				}
+			}
+		}()
+		r.Eval(1)
+		r.Count("fs_layouts_scanned", 1)
+		if st != "" {
+			r.Violation(panicKey(st), fmt.Sprintf("path guessing / source analysis panicked on a generated layout: %s", core.Trunc(st, 1500)), "fs", map[string]any{"seed": seed, "idx": i, "input": string(in), "layout": l})
+		}
+	}
 }
 
 // stuckReader delivers some data, then returns (0, nil) forever.
@@ -493,6 +535,13 @@ func replayC03(r *core.Run, kind string, raw json.RawMessage) {
 		}
 	case "seq":
 		replaySeqOrStream(r, kind, raw, "robust")
+	case "fs":
+		var c struct {
+			Seed int64 `json:"seed"`
+			Idx  int   `json:"idx"`
+		}
+		_ = json.Unmarshal(raw, &c)
+		c03FSEval(r, c.Seed, c.Idx)
 	}
 }
 
